@@ -104,7 +104,9 @@ class LangLex:
 
 def clone_deep(v, memo=None):
     """deep copy of interpreter data including hash containers (used to give every path its own symbol table)"""
-    if isinstance(v, Agg): return Agg(v.name, [clone_deep(f) for f in v.fields], v.variant, v.vidx)
+    if isinstance(v, Agg):
+        if v.name in ARC_ONLY: return v
+        return Agg(v.name, [clone_deep(f) for f in v.fields], v.variant, v.vidx)
     if isinstance(v, list): return [clone_deep(x) for x in v]
     if isinstance(v, VecV): return VecV([clone_deep(x) for x in v.items])
     if isinstance(v, StrV): return StrV(list(v.b))
